@@ -54,7 +54,7 @@ func convRound(s, t NKind, z *big.Int, mode int) (res outcome) {
 
 // roundRat rounds an exact rational to an integer by the rule.
 func roundRat(q *big.Rat, mode int) *big.Int {
-	num, den := q.Num(), q.Denom() // den > 0
+	num, den := q.Num(), q.Denom()  // den > 0
 	t := new(big.Int).Quo(num, den) // toward zero
 	frac := new(big.Rat).Sub(q, new(big.Rat).SetInt(t))
 	frac.Abs(frac)
